@@ -41,7 +41,10 @@ type ChildCase struct {
 	// PreloadOnOtherThread: before the judged load, another pinned thread loads the very same filter
 	// (only meaningful without thread-sync).
 	PreloadOnOtherThread bool `json:"preload_on_other_thread,omitempty"`
-	Unprivileged         bool `json:"unprivileged,omitempty"`
+	// PreloadPolicy: the other thread loads this (different) policy instead, without thread-sync: its filter is then not
+	// an ancestor of the judged caller's, and a thread-sync load must be refused.
+	PreloadPolicy *PolicySpec `json:"preload_policy,omitempty"`
+	Unprivileged  bool        `json:"unprivileged,omitempty"`
 
 	// Raw: rawload mode hands this program (code, jt, jf, k) to seccomp(2) directly.
 	Raw [][4]uint32 `json:"raw,omitempty"`
